@@ -238,6 +238,8 @@ package geometry
 //@     (d[0] == 1 ==> RWFtop(slice(d, 0, le32(d,1)), pts, cl)) && (d[0] == 2 ==> QWFtop(slice(d, 0, le32(d,1)), pts, cl, r)) }
 //@ spec func IndexInv(s *baseSeries) bool { s.index == nil || (isBytes(s.index) && indexBytesOK(s.points, s.closed, s.rect, unboxBytes(s.index))) }
 
+// the same invariant behind an opaque name: passed across a state merge by congruence instead of being re-expanded over merged heaps
+//@ spec func idxOK(s *baseSeries) bool opaque { IndexInv(s) }
 //@ func baseSeries.Search
 //@   props C04 C01 C08
 //@   arith order
@@ -566,6 +568,7 @@ package geometry
 //@   requires series != nil
 //@   modifies baseSeries.index
 //@   ensures IndexInv(series)
+//@   ensures Named: idxOK(series)
 //@   ensures forall r *baseSeries :: r != series ==> r.index == old(r.index)
 
 // package-level variables keep the values their initialisers give them (no store to a global inside the module: C16)
